@@ -2,6 +2,7 @@ package props
 
 import (
 	"bytes"
+	"github.com/google/go-tdx-guest/verify/trust"
 	"strings"
 	"time"
 
@@ -103,6 +104,62 @@ func TestC05(t *testing.T) {
 		}
 		return append(out, bad...)
 	}
+	// One retrying getter serves two verifications with revocation checking: everything authentic the first time; the
+	// second time one CRL endpoint fails for the whole retry budget (error / answers that are no list). Without that
+	// list the second verification cannot have checked revocation: it is rejected, whatever the getter saw before.
+	gen.Direct(t, "retrying-getter-across-verifications", func(t *testing.T) {
+		i := 0
+		for _, ndp := range []int{1, 2} {
+			for _, target := range []string{"root-crl", "pck-crl"} {
+				for _, how := range []string{"error", "html", "empty"} {
+					i++
+					if !gen.ShardOwns(i) {
+						continue
+					}
+					dps := []string{gen.RootCrlURL, "https://crl.example.test/second.der"}[:ndp]
+					w := gen.NewWorld(gen.NewPKI(gen.PKISpec{Seed: gen.PKISeeds[i%4], RootCRLDP: dps}), gen.NewStream(gen.Seed()+uint64(i), "c05retry")).Build()
+					sw := &switchGetter{cur: w.NewGetter()}
+					retry := &trust.RetryHTTPSGetter{Timeout: 5 * time.Millisecond, MaxRetryDelay: time.Millisecond, Getter: sw}
+					o := w.Options(gen.LvlCRL, nil, nil)
+					o.Getter = retry
+					gen.Eval()
+					if v := gen.Call(func() error { return verify.RawTdxQuote(w.Raw, o) }); !v.Accepted() {
+						gen.Fail(t, gen.Violation{Key: "rejects-unrevoked:through-a-retrying-getter", Oracle: "authentic CRLs that do not list the chain's certificates do not cause rejection", Detail: v.String(), Replay: w.CaseFile(gen.LvlCRL, nil, nil, nil, "accept")})
+						return
+					}
+					g2 := w.NewGetter()
+					bad := gen.Response{Err: errors.New("scripted: endpoint down")}
+					switch how {
+					case "html":
+						bad = gen.Response{Body: []byte("<html><body>503 Service Unavailable</body></html>")}
+					case "empty":
+						bad = gen.Response{Body: []byte{}}
+					}
+					if target == "root-crl" {
+						for _, u := range dps {
+							g2.Resp[u] = bad
+						}
+					} else {
+						g2.Resp[gen.PckCrlURL("platform")] = bad
+					}
+					sw.cur = g2
+					o2 := w.Options(gen.LvlCRL, nil, nil)
+					if i%2 == 0 {
+						o2 = o // the very options value of the first verification
+					}
+					o2.Getter = retry
+					gen.Eval()
+					v := gen.Call(func() error { return verify.RawTdxQuote(w.Raw, o2) })
+					gen.NonTrivial("retry", target, how, ndp)
+					gen.Class("retrying-getter:second-verification-without-" + target)
+					if v.Panicked() || v.Accepted() {
+						gen.Fail(t, gen.Violation{Key: "accepts-despite:" + target + "-not-obtainable-this-time", Oracle: "with revocation on, accepted only if both CRLs were obtained and authenticated and none of the four serials is listed", Detail: fmt.Sprintf("second verification through the same retrying getter, %s now answers with %s (%d root distribution points): %s", target, how, ndp, v), Replay: w.CaseFile(gen.LvlCRL, nil, g2.Resp, nil, "reject")})
+						return
+					}
+				}
+			}
+		}
+	})
 	signers := ok7("correct", "other-ca", "foreign-key", "wrong-name", "tampered", "tampered")
 	outcomes := ok7("ok", "error", "empty", "garbage", "pem", "other-crl")
 	gen.Prop(t, "model", gen.N(3000, 150000), func(t *rapid.T) {
@@ -161,7 +218,7 @@ func TestC05(t *testing.T) {
 		}
 		targets := map[string][]byte{"leaf": w.Leaf.X.SerialNumber.Bytes(), "int": p.Int.X.SerialNumber.Bytes(), "tcb": p.TcbSig.X.SerialNumber.Bytes(), "qe": p.QeSig.X.SerialNumber.Bytes()}
 
-		pck := crlPlan{signer: rapid.SampledFrom(signers).Draw(t, "pckSigner"), outcome: rapid.SampledFrom(outcomes).Draw(t, "pckOutcome"), header: rapid.SampledFrom(ok7("ok", "missing", "empty", "one-cert", "pki-b", "forged-matching-foreign-key", "forged-matching-foreign-key")).Draw(t, "pckHeader")}
+		pck := crlPlan{signer: rapid.SampledFrom(signers).Draw(t, "pckSigner"), outcome: rapid.SampledFrom(outcomes).Draw(t, "pckOutcome"), header: rapid.SampledFrom(append(ok7("ok", "missing", "empty", "one-cert", "pki-b", "forged-matching-foreign-key", "forged-matching-foreign-key"), "other-edition-of-the-issuing-ca", "other-edition-of-the-issuing-ca", "other-edition-of-the-issuing-ca")).Draw(t, "pckHeader")}
 		pck.revoked, pck.contains = drawRevoked(t, "pck", targets, s)
 		pck.revokedAt = datesFor(len(pck.revoked))
 		root := crlPlan{signer: rapid.SampledFrom(signers).Draw(t, "rootSigner")}
@@ -258,6 +315,12 @@ func TestC05(t *testing.T) {
 		switch pck.header {
 		case "ok":
 			pr.Header = map[string][]string{gen.HdrPckCrl: {gen.IssuerChainHeader(p.Int, p.Root)}}
+		case "other-edition-of-the-issuing-ca":
+			// the PCS sends another, equally genuine certificate of the CA that issued the PCK certificate (same name and
+			// key, another serial number): it authenticates the list just as well - and says nothing about whether the
+			// certificate IN THE QUOTE's chain is revoked
+			ed := gen.MakeCert(gen.CertSpec{CN: p.Int.X.Subject.CommonName, KeyLabel: seed + "/int", Serial: []byte{0x42, 0x17, 0x42, 0x17, 0x42, 0x17, 0x42, 0x17, 0x01}, NotBefore: gen.Wide.NotBefore, NotAfter: gen.Wide.NotAfter, CA: true, CRLDP: dps, AKI: p.Int.X.AuthorityKeyId}, p.Root)
+			pr.Header = map[string][]string{gen.HdrPckCrl: {gen.IssuerChainHeader(ed, p.Root)}}
 		case "empty":
 			pr.Header = map[string][]string{gen.HdrPckCrl: {""}}
 		case "one-cert":
@@ -345,7 +408,7 @@ func TestC05(t *testing.T) {
 		if pck.outcome != "ok" {
 			reject = "PCK CRL " + pck.outcome
 		}
-		if pck.header != "ok" && pck.header != "pki-b" && pck.header != "forged-matching-foreign-key" {
+		if pck.header != "ok" && pck.header != "other-edition-of-the-issuing-ca" && pck.header != "pki-b" && pck.header != "forged-matching-foreign-key" {
 			dontCare = "PCK CRL issuer-chain header " + pck.header
 		}
 		if pck.header == "pki-b" || pck.header == "forged-matching-foreign-key" {
@@ -382,14 +445,27 @@ func TestC05(t *testing.T) {
 		}
 		// ---- history: the same process may have seen the authentic lists a moment ago ----
 		history := "fresh"
-		if rapid.Bool().Draw(t, "authenticListsVerifiedFirst") {
+		// one retrying getter (as DefaultOptions / the check tool build it) may serve both verifications: what it fetched
+		// for the first one is no answer to the requests of the second
+		sw := &switchGetter{}
+		retry := &trust.RetryHTTPSGetter{Timeout: 3 * time.Millisecond, MaxRetryDelay: time.Millisecond, Getter: sw}
+		throughRetry := false
+		if hk := rapid.IntRange(0, 2).Draw(t, "authenticListsVerifiedFirst"); hk > 0 {
 			history = "after-authentic-lists"
+			throughRetry = hk == 2
+			if throughRetry {
+				history = "after-authentic-lists-through-the-same-retrying-getter"
+			}
 			g0 := w.NewGetter()
 			g0.Resp[gen.PckCrlURL("platform")] = gen.Response{Header: map[string][]string{gen.HdrPckCrl: {gen.IssuerChainHeader(p.Int, p.Root)}}, Body: authentic["pck"]}
 			for _, u := range dps {
 				g0.Resp[u] = gen.Response{Body: authentic["root"]}
 			}
 			o0 := w.Options(gen.LvlCRL, g0, nil)
+			if throughRetry {
+				sw.cur = g0
+				o0.Getter = retry
+			}
 			gen.Eval()
 			if v0 := gen.Call(func() error { return verify.RawTdxQuote(w.Raw, o0) }); v0.Panicked() {
 				gen.Fail(t, gen.Violation{Key: "panic@" + gen.PanicSite(v0.Stack), Oracle: "verification returns a verdict", Detail: v0.Panic, Replay: w.CaseFile(gen.LvlCRL, nil, g0.Resp, nil, "nopanic")})
@@ -401,6 +477,10 @@ func TestC05(t *testing.T) {
 		rp := w.CaseFile(gen.LvlCRL, nil, nil, nil, map[bool]string{true: "reject", false: "accept"}[reject != ""])
 		rp["history"] = history
 		o := w.Options(gen.LvlCRL, newGetter(), nil)
+		if throughRetry {
+			sw.cur = o.Getter
+			o.Getter = retry
+		}
 		gen.Eval()
 		v := gen.Call(func() error { return verify.RawTdxQuote(w.Raw, o) })
 		if v.Panicked() {
@@ -465,3 +545,8 @@ func keysOf(m map[string]bool) []string {
 	}
 	return out
 }
+
+// switchGetter hands every request to whatever getter is current (one long-lived wrapper, changing answers behind it).
+type switchGetter struct{ cur trust.HTTPSGetter }
+
+func (g *switchGetter) Get(u string) (map[string][]string, []byte, error) { return g.cur.Get(u) }
